@@ -5,6 +5,7 @@
 //! `harness prop  < cases`  — evaluates the property itself on the implementation.
 mod codec;
 mod frame;
+mod hitobj;
 mod sections;
 mod util;
 
@@ -49,6 +50,7 @@ fn dispatch_impl(toks: &[&str]) -> String {
     None.or_else(|| frame::dispatch_impl(toks))
         .or_else(|| codec::dispatch_impl(toks))
         .or_else(|| sections::dispatch_impl(toks))
+        .or_else(|| hitobj::dispatch_impl(toks))
         .unwrap_or_else(|| "bad-request".to_owned())
 }
 
@@ -56,5 +58,6 @@ fn dispatch_prop(toks: &[&str]) -> String {
     None.or_else(|| frame::dispatch_prop(toks))
         .or_else(|| codec::dispatch_prop(toks))
         .or_else(|| sections::dispatch_prop(toks))
+        .or_else(|| hitobj::dispatch_prop(toks))
         .unwrap_or_else(|| "SKIP no-oracle".to_owned())
 }
